@@ -76,6 +76,19 @@ func seqFromRecord(rec *gen.GBRecord, r *rand.Rand, cachedText bool) poly.Sequen
 	}
 	s.Meta.Definition, s.Meta.Accession, s.Meta.Version, s.Meta.Keywords = rec.Definition, rec.Accession, rec.Version, rec.Keywords
 	s.Meta.Source, s.Meta.Organism = rec.Source, rec.Organism()
+	// optional text fields may be absent from an assembled record
+	switch r.Intn(12) {
+	case 0:
+		s.Meta.Organism = ""
+	case 1:
+		s.Meta.Definition = ""
+	case 2:
+		s.Meta.Keywords = ""
+	case 3:
+		s.Meta.Version = ""
+	case 4:
+		s.Meta.Accession = ""
+	}
 	for i, rf := range rec.Refs {
 		s.Meta.References = append(s.Meta.References, poly.Reference{Index: fmt.Sprint(i + 1), Range: rf.Range, Authors: rf.Authors, Title: rf.Title, Journal: rf.Journal, PubMed: rf.PubMed, Remark: rf.Remark})
 	}
